@@ -140,7 +140,9 @@ Definition min_needs (kcals_daily threshold pf1 conv_kcals_daily : Q) (N : nat) 
 
 (* ------------------------------------------------------------------ fill_negatives_with_positives *)
 
-(* inner loop body for one i (descending), with the `break` once arr[neg] == 0 *)
+(* inner loop body for one i (descending), with the `break` once arr[neg] == 0.
+   Qred puts a rational in lowest terms (Qred x == x): it changes no value, it only keeps numerators and
+   denominators small when case files are evaluated (repeated + / - would otherwise square them) *)
 Fixpoint fix_one (neg : nat) (idxs : list nat) (arr : list Q) : list Q :=
   match idxs with
   | [] => arr
@@ -148,8 +150,8 @@ Fixpoint fix_one (neg : nat) (idxs : list nat) (arr : list Q) : list Q :=
       if Nat.eqb i neg || Qle_bool (nth i arr 0) 0 then fix_one neg rest arr
       else
         let adj := pymin (- nth neg arr 0) (nth i arr 0) in
-        let arr1 := upd arr neg (nth neg arr 0 + adj) in
-        let arr2 := upd arr1 i (nth i arr1 0 - adj) in
+        let arr1 := upd arr neg (Qred (nth neg arr 0 + adj)) in
+        let arr2 := upd arr1 i (Qred (nth i arr1 0 - adj)) in
         if Qeq_bool (nth neg arr2 0) 0 then arr2 else fix_one neg rest arr2
   end.
 
